@@ -146,7 +146,7 @@ def run(ctx):
                 nm = cstr(f, c.args[1])
                 if nm is not None:
                     const_assigns.append((f, c, nm))
-        ctx.floor("C18.W5 names pre-assigned by constant" + tag, len(const_assigns), 2)
+        ctx.floor("C18.W5 names pre-assigned by constant" + tag, len(const_assigns), 1)
         for f, c, nm in const_assigns:
             bound = False
             if nm in ENGINE_BOUND:
